@@ -280,7 +280,7 @@ func classes(c Case, v verdicts) []string {
 	default:
 		cl = append(cl, "expiry=past")
 	}
-	if c.Expiry != 0 && c.Expiry > -120 && c.Expiry < 120 {
+	if c.Expiry != 0 && c.Expiry > -121 && c.Expiry < 121 {
 		cl = append(cl, "expiry=near-now")
 	}
 	if v.tsEither {
@@ -332,7 +332,7 @@ const (
 func drawCase(rt *rapid.T) Case {
 	c := Case{Scheme: rp.Pick(rt, "scheme", "x509", "x509", "sa"), Format: rp.Pick(rt, "format", envb.MTJWS, envb.MTCOSE),
 		TSAction: rp.Pick(rt, "tsAction", "enforce", "log"), TSARev: "ok", Token: "absent"}
-	c.Expiry = rp.Pick(rt, "expiry", 0, 0, -365*day, -hour, -30, 30, hour, 365*day)
+	c.Expiry = rp.Pick(rt, "expiry", 0, 0, -365*day, -hour, -30, -5, 120, hour, 365*day) // the future side keeps 2 min so that a stalled process cannot flip the verdict
 	n := rapid.IntRange(1, 4).Draw(rt, "chainLen")
 	nbs := []int64{-20 * day, -10 * day, -5 * day, hour}
 	nas := []int64{-2 * day, -hour, hour, 10 * day, 20 * day}
